@@ -4,3 +4,5 @@ import Essential.Lemmas.Asm
 import Essential.Props.C13
 import Essential.Props.C14
 import Essential.Props.C15
+import Essential.Props.C05
+import Essential.Props.C08
